@@ -15,6 +15,7 @@ FAMILY_DEFAULTS = {
     "scope": dict(MaxNodes=4, MaxDepth=3, DepthLimits={8}, LoopLimits={4}, VarLimits={3}, StrMode=False, InitVal=0),
     "order": dict(MaxNodes=4, MaxDepth=2, DepthLimits={8}, LoopLimits={4}, VarLimits={3}, StrMode=False, InitVal=-1),
     "reuse": dict(MaxNodes=4, MaxDepth=3, DepthLimits={8}, LoopLimits={4}, VarLimits={3}, StrMode=False, InitVal=0),
+    "rng": dict(MaxNodes=4, MaxDepth=3, DepthLimits={8}, LoopLimits={4}, VarLimits={3}, StrMode=False, InitVal=0),
     "var": dict(MaxNodes=3, MaxDepth=2, DepthLimits={6}, LoopLimits={4}, VarLimits={2, 4}, StrMode=True, InitVal=1),
 }
 
@@ -78,11 +79,56 @@ class Conc:
         self.nl = "\n" if indent else ""
         self.cont_name = rnd.choice(CONT_NAMES)
         self.tc_name = rnd.choice(TEXTCONT_NAMES)
+        # per-shape spelling variants (order family): what kind of element a leaf
+        # is and how it spells its position; the abstract geometry is unchanged
+        self.shape = {}
+        self.spell = {}
+        self.points = set()
+        if rec.get("family") == "order":
+            def walk(nodes):
+                for n in nodes:
+                    if n["k"] == "leaf":
+                        self.shape[n["id"]] = rnd.choice(["rect", "rect", "circle", "point"])
+                        self.spell[n["id"]] = rnd.choice(["xy", "xy", "native", "native+dxy"])
+                        if self.shape[n["id"]] == "point":
+                            self.points.add(n["id"])
+                    walk(n["ch"])
+            walk(rec["doc"])
+
+    def width_of(self, i):
+        return 0 if self.shape.get(i) == "point" else 2
+
+    def varied_leaf(self, n):
+        i = n["id"]
+        sh = self.shape[i]
+        base = f'id="n{i}" class="p{i}"'
+        X = 3 * i
+        nl = self.nl
+        if n["ref"] > 0:
+            wt = self.width_of(n["ref"])
+            if sh == "circle":
+                return f'<circle {base} cxy="#n{n["ref"]}@r {4 - wt} 0" r="1" data-v="-"/>{nl}'
+            size = "" if sh == "point" else (' width="2" height="2"' if n["lit"] else ' wh="2"')
+            return f'<{sh} {base} xy="#n{n["ref"]}|h {3 - wt}"{size} data-v="-"/>{nl}'
+        if sh == "circle":
+            return f'<circle {base} cxy="{X + 1} 1" r="1" data-v="-"/>{nl}'
+        if sh == "point":
+            return f'<point {base} xy="{X} 0"/>{nl}'
+        sp = self.spell[i]
+        if sp == "native":
+            return f'<rect {base} x="{X}" y="0" width="2" height="2" data-v="-"/>{nl}'
+        if sp == "native+dxy":
+            d = self.rnd.choice(['dxy="3 0"', 'dx="3"'])
+            return f'<rect {base} x="{X - 3}" y="0" width="2" height="2" {d} data-v="-"/>{nl}'
+        size = 'width="2" height="2"' if n["lit"] else 'wh="2"'
+        return f'<rect {base} xy="{X} 0" {size} data-v="-"/>{nl}'
 
     def node(self, n):
         k = n["k"]
         i = n["id"]
         nl = self.nl
+        if k == "leaf" and i in self.shape and n["rd"] == "-" and not n["href"] and not n["rnd"] and not n["content"] and n["ref"] >= 0:
+            return self.varied_leaf(n)
         if k == "leaf":
             a = [f'id="n{i}"'] if not n["href"] else [f'id="r{n["href"]}"']
             a.append(f'class="p{i}"' if not n["href"] else f'class="p{i} n{i}"')
@@ -180,11 +226,14 @@ def project_items(out, strmode):
     root = vlib.parse_fragment(out)
     items = []
     for el in vlib.elements(root):
-        if el.name != "rect":
+        if el.name not in ("rect", "circle"):
             continue
         for c in el.classes():
             if c.startswith("p") and c[1:].isdigit():
-                x = vlib.fnum(el.attrs.get("x", "0"))
+                if el.name == "circle":
+                    x = vlib.fnum(el.attrs.get("cx", "0")) - vlib.fnum(el.attrs.get("r", "0"))
+                else:
+                    x = vlib.fnum(el.attrs.get("x", "0"))
                 items.append({"id": int(c[1:]), "v": decode_value(el.attrs.get("data-v"), strmode),
                               "x": int(x) if x is not None and x == int(x) else x})
                 break
@@ -425,8 +474,9 @@ def standard_compare(check_items=True, check_rng=False):
                 items = project_items(resp["out"], rec["str"])
             except vlib.XmlError as e:
                 return ("output-not-wellformed", str(e))
-            if items != rec["items"]:
-                return ("items", f"rendered items differ: expected {rec['items']}, got {items}")
+            exp = [it for it in rec["items"] if it["id"] not in c.points]
+            if items != exp:
+                return ("items", f"rendered items differ: expected {exp}, got {items}")
         if rec["res"] == "ok" and check_rng and rec.get("norefs"):
             n = resp.get("ts", {}).get("counts", {}).get("rng", 0)
             if n != rec["irng"]:
@@ -505,7 +555,7 @@ def family_check(rep, family, tier, seed, compare, over_quick, over_thorough, de
         classes[key] = classes.get(key, 0) + 1
     rep.notes.setdefault("outcome_classes", {})[family] = classes
     for need in need_outcomes:
-        if need not in classes:
+        if need not in classes and not (need.find("/") < 0 and any(k.split("/")[0] == need for k in classes)):
             raise vlib.ToolError(f"family {family}: outcome class {need} never reached (vacuous): {classes}")
     recs = r.replay
     limit = sample_thorough if tier == "thorough" else sample_quick
